@@ -270,6 +270,8 @@ func classOf(e *actionlint.Error) int {
 			return clUntrusted
 		case has("object, array, and null values should not be evaluated"):
 			return clTmpl
+		case has("type of expression at "):
+			return clValue
 		}
 		return clOther
 	case "syntax-check":
@@ -451,6 +453,18 @@ func place(doc *ynode, site string, src string, flow bool, gap, above int) *ynod
 		job.get("steps").vals[0] = st
 	case "job.permissions":
 		job.insertAt(1, "permissions", v)
+		v.above = above
+	case "matrix.exclude-expr":
+		job.get("strategy").get("matrix").set("exclude", v)
+		v.above = above
+	case "matrix.include-expr":
+		job.get("strategy").get("matrix").set("include", v)
+		v.above = above
+	case "matrix-expr":
+		job.get("strategy").set("matrix", v)
+		v.above = above
+	case "job.env-expr":
+		job.set("env", v)
 		v.above = above
 	case "strategy.fail-fast":
 		job.get("strategy").set("fail-fast", v)
@@ -712,8 +726,14 @@ func genExprSpec(r *hx.Rng, id int) Spec {
 	if s.Style == 0 && site.script && b.Len() == 0 {
 		b.WriteString("echo ")
 	}
+	trail := ""
+	if site.oneOnly && s.Style != 0 && r.Chance(1, 2) {
+		// a quoted value that is exactly one placeholder may have spaces around it
+		b.WriteString(sp(1 + r.Intn(3)))
+		trail = sp(r.Intn(3))
+	}
 	s.TmplOff = b.Len()
-	b.WriteString("${{" + pe.inner + "}}")
+	b.WriteString("${{" + pe.inner + "}}" + trail)
 	if !site.oneOnly && s.Kind != "lexer" {
 		post := filler(r, s.Style, r.Intn(6), false)
 		if s.Style == 0 {
@@ -773,7 +793,16 @@ func genKeySpec(r *hx.Rng, id int) Spec {
 	return s
 }
 
-var valueSites = []string{"job.continue-on-error", "job.timeout-minutes", "step.timeout-minutes", "strategy.fail-fast", "strategy.max-parallel", "job.permissions", "job.runs-on", "on.issues.types"}
+var valueSites = []string{"job.continue-on-error", "job.timeout-minutes", "step.timeout-minutes", "strategy.fail-fast", "strategy.max-parallel", "job.permissions", "job.runs-on", "on.issues.types",
+	// a section given as ONE placeholder whose type does not fit (reported at the value)
+	"matrix.exclude-expr", "job.env-expr", "matrix-expr"}
+
+// the ill-typed section values (plain or double-quoted: they contain single quotes)
+var sectionExprText = map[string]string{
+	"matrix.exclude-expr": "${{ fromJSON('[1, 2]') }}",
+	"job.env-expr":        "${{ fromJSON('[3]') }}",
+	"matrix-expr":         "${{ fromJSON('4') }}",
+}
 
 func genValueSpec(r *hx.Rng, id int) Spec {
 	s := Spec{ID: id, Family: "value", Kind: "value"}
@@ -786,6 +815,10 @@ func genValueSpec(r *hx.Rng, id int) Spec {
 		s.Text += "-latest"
 	}
 	s.Flow = s.Site == "on.issues.types" && r.Chance(1, 2)
+	if t, ok := sectionExprText[s.Site]; ok {
+		s.Text = t
+		s.Style = []int{0, 2}[r.Intn(2)]
+	}
 	s.Marker, s.Delta = s.Text, 0
 	return s
 }
